@@ -243,7 +243,9 @@ Definition exec (sc : sconfig) (m : mstate) (st : sstep) : mstate * obs :=
   let cfg := sc_cfg sc in
   match st with
   | SConnect first =>
-      if m_started m then (m, ObBad) else
+      (* Connect may be started once; a client made by newclient (callers may already wait at its
+         gate) can still be connected *)
+      if (match phase (m_st m) with PInit => false | _ => true end) then (m, ObBad) else
       let m0 := mkM (m_st m) (m_events m) (m_peerq m) (m_peer_closed m) (m_seen m) (m_fail m) (m_failed m) true (m_fuel_out m) in
       let m1 := fire sc m0 ConnStart in
       match first with
